@@ -247,17 +247,58 @@ def interactive_tables() -> dict[str, list[str]]:
 	}
 
 
+def render_tables() -> dict[str, bool]:
+	"""Shape of ErrorRender.__build_quotation: the two early returns of the pinned tree, optionally followed by the
+	"node without a position" guard (proposed/C16-spanless-quotation.diff)."""
+	path = os.path.join(REPO, 'rogw/tranp/view/error_render.py')
+	with open(path, encoding='utf-8') as f:
+		tree = ast.parse(f.read())
+	fn = _find_func(tree, 'ErrorRender', '__build_quotation')
+	ifs = [s for s in fn.body if isinstance(s, ast.If)]
+	tests = [ast.unparse(i.test) for i in ifs]
+	for i in ifs:
+		if not (len(i.body) == 1 and ast.unparse(i.body[0]) == 'return []' and not i.orelse):
+			raise TranslateError('ErrorRender.__build_quotation: an early return is not `return []`')
+	base = ['len(self.e.args) == 0 or not isinstance(self.e.args[0], Node)', 'not os.path.exists(filepath)']
+	guard = "node.source_map['begin'][0] < 1 or node.source_map['begin'][1] < 1"
+	if tests == base:
+		out = {'quotationSpanGuard': False}
+	elif tests == [*base, guard]:
+		out = {'quotationSpanGuard': True}
+	else:
+		raise TranslateError(f'ErrorRender.__build_quotation: unrecognised early returns {tests}')
+	# __build_message: pinned = one join over `f'"{arg}"' if isinstance(arg, str) else str(arg)`;
+	# proposed/C07-render-unprintable-arg.diff = the same through a helper that falls back to repr(arg) when str(arg) raises
+	msg = _find_func(tree, 'ErrorRender', '__build_message')
+	body = [s for s in msg.body if not isinstance(s, ast.Expr)]
+	text = ' ; '.join(ast.unparse(s) for s in body)
+	pinned = "join_args = ', '.join([f'\"{arg}\"' if isinstance(arg, str) else str(arg) for arg in self.e.args]) ; return f'({join_args})'"
+	helper = "join_args = ', '.join([self.__arg_to_str(arg) for arg in self.e.args]) ; return f'({join_args})'"
+	if text == pinned:
+		out['messageStrFallback'] = False
+	elif text == helper:
+		h = _find_func(tree, 'ErrorRender', '__arg_to_str')
+		hb = ' ; '.join(ast.unparse(s) for s in h.body if not isinstance(s, ast.Expr)).replace('\n', ' ')
+		want = "if isinstance(arg, str): return f'\"{arg}\"' ; try: return str(arg) except Exception: return repr(arg)"
+		if ' '.join(hb.split()) != ' '.join(want.split()):
+			raise TranslateError(f'ErrorRender.__arg_to_str: unrecognised body: {hb}')
+		out['messageStrFallback'] = True
+	else:
+		raise TranslateError(f'ErrorRender.__build_message: unrecognised body: {text}')
+	return out
+
+
 # ---------------------------------------------------------------------------------------------
 # emit
 
 
-def render(errs: list[tuple[str, str, bool]], bis: list[tuple[str, str | None]], tables: dict[str, list[str]]) -> str:
+def render(errs: list[tuple[str, str, bool]], bis: list[tuple[str, str | None]], tables: dict[str, list[str]], flags: dict[str, bool]) -> str:
 	L: list[str] = []
 	L.append('/-')
 	L.append('  GENERATED by verif/translate/gen_errors.py — do not edit.')
 	L.append('  Sources: rogw/tranp/errors.py, CPython builtins, and the except clauses of')
 	L.append('  semantics/procedure.py (Procedure.__emit/__make_event/__exec_impl), implements/syntax/lark/parser.py')
-	L.append('  (SyntaxParserOfLark.__load_entry), bin/transpile.py (Interactive.run).')
+	L.append('  (SyntaxParserOfLark.__load_entry), bin/transpile.py (Interactive.run); early returns of view/error_render.py (__build_quotation).')
 	L.append('-/')
 	L.append('namespace Tranp.Generated.ErrorsTable')
 	L.append('')
@@ -331,6 +372,12 @@ def render(errs: list[tuple[str, str, bool]], bis: list[tuple[str, str | None]],
 	for name in ['interactiveInnerCatch', 'interactiveOuterCatch']:
 		L.append(f'def {name} : List Atom := [' + ', '.join(tables[name]) + ']')
 	L.append('')
+	L.append('/-- ErrorRender.__build_quotation returns [] for a node without a position (begin line or column < 1) -/')
+	L.append(f"def quotationSpanGuard : Bool := {'true' if flags['quotationSpanGuard'] else 'false'}")
+	L.append('')
+	L.append('/-- ErrorRender.__build_message shows `repr(arg)` when `str(arg)` raises -/')
+	L.append(f"def messageStrFallback : Bool := {'true' if flags['messageStrFallback'] else 'false'}")
+	L.append('')
 	L.append('end Tranp.Generated.ErrorsTable')
 	return '\n'.join(L) + '\n'
 
@@ -342,7 +389,8 @@ def generate() -> list[dict[str, Any]]:
 	for need in ('Exception', 'BaseException', 'TypeError', 'AssertionError', 'KeyboardInterrupt'):
 		if need not in [k for k, _ in bis]:
 			raise TranslateError(f'builtin {need} missing')
-	changed = write_if_changed(OUT, render(errs, bis, tables))
+	flags = render_tables()
+	changed = write_if_changed(OUT, render(errs, bis, tables, flags))
 	return [{
 		'file': os.path.relpath(OUT, os.path.dirname(GENERATED_DIR)),
 		'source': 'rogw/tranp/errors.py + except clauses of procedure.py / parser.py / bin/transpile.py + CPython builtins',
@@ -351,5 +399,7 @@ def generate() -> list[dict[str, Any]]:
 		'builtin_classes': len(bis),
 		'handlers': {k: len(v) for k, v in tables.items()},
 		'mem_branch_wrapped': bool(tables['parserMemHandlers']),
+		'quotation_span_guard': flags['quotationSpanGuard'],
+		'message_str_fallback': flags['messageStrFallback'],
 		'changed': changed,
 	}]
